@@ -377,6 +377,8 @@ class Config:
             return path.alloc(MObj(dom, cols, cls, mdl, t.default_factory, evcols))
         if isinstance(t, C.Event):
             return path.alloc(Obj(asyncio.Event, {'_flag': path.fresh_sym('bool', hint + '._flag')}))
+        if hasattr(t, 'fresh'):
+            return t.fresh(self, path, hint)  # extension point: type descriptors defined outside the core (pyvc/ext_*.py)
         raise Unsupported(f'fresh value of type {t!r}')
 
     def havoc_like(self, path, v, hint):
@@ -920,6 +922,8 @@ def run_path(cfg, path, top, func, is_lemma):
     pnames = [p.arg for p in a.posonlyargs + a.args] + [p.arg for p in a.kwonlyargs]
     missing = [p for p in pnames if p not in env]
     kwargs = {p: env[p] for p in pnames if p in env}
+    if is_lemma and 'ghost' in pnames and 'ghost' not in env:
+        kwargs['ghost'] = path.ghost  # a ghost driver may read (and update) the ghost state, like every clause
     try:
         result = path.run_func(func, [], kwargs)
     except PyExc as e:
